@@ -1,2 +1,18 @@
 -- Root of the `MajoranaVerif` library (see /verif/DESIGN.md §3.1).
+-- `Gen.*` is regenerated from /repo on every run of every check (bin/check, tie T1).
 import MajoranaVerif.Model.GoInt
+import MajoranaVerif.Model.Rat
+import MajoranaVerif.Model.Ctx
+import MajoranaVerif.Model.Roles
+import MajoranaVerif.Spec.Isa
+import MajoranaVerif.Spec.Exec
+import MajoranaVerif.Spec.Asm
+import MajoranaVerif.Spec.Run
+import MajoranaVerif.Gen.Bytes
+import MajoranaVerif.Gen.Latency
+import MajoranaVerif.Gen.Risc
+import MajoranaVerif.Gen.Opcodes
+import MajoranaVerif.Proofs.Bytes
+import MajoranaVerif.Proofs.Opcodes
+import MajoranaVerif.Props.C02
+import MajoranaVerif.Props.C16
